@@ -405,9 +405,9 @@ fn nested_too_deeply(line: &str) -> bool {
     false
 }
 
-/// The conditional directive a line starts with (behind an optional label), told by its name
-/// alone; for lines the grammar cannot parse
-fn conditional_directive_by_name(line: &str) -> Option<Directive> {
+/// The name of the directive a line starts with (behind an optional label), in lower case; for
+/// lines the grammar cannot parse
+fn directive_name(line: &str) -> Option<String> {
     let mut rest = line.trim_start();
     // an optional label
     if let Some(colon) = rest.find(':') {
@@ -433,7 +433,13 @@ fn conditional_directive_by_name(line: &str) -> Option<Directive> {
     {
         return None;
     }
-    match name.as_str() {
+    Some(name.to_lowercase())
+}
+
+/// The conditional directive a line starts with (behind an optional label), told by its name
+/// alone; for lines the grammar cannot parse
+fn conditional_directive_by_name(line: &str) -> Option<Directive> {
+    match directive_name(line)?.as_str() {
         "if" => Some(Directive::If),
         "ifdef" => Some(Directive::IfDef),
         "ifndef" => Some(Directive::IfNDef),
